@@ -93,7 +93,10 @@ def collect_sites(P, fi, context=None):
         s = sites.get(key)
         if s is None:
             s = sites[key] = Site(node, kind, q)
-        s.states.append((bound, star, dict(st.env), list(st.trace)))
+        # a nested function inlined from its parent sees the parent's variables (kept under 'closure:<name>')
+        env = {k[8:]: v for k, v in st.env.items() if k.startswith('closure:')}
+        env.update({k: v for k, v in st.env.items() if not k.startswith('closure:')})
+        s.states.append((bound, star, env, list(st.trace)))
 
     def hook(ca, bound, star, st, e):
         if ca.kind == 'repo' and ca.func is not None:
@@ -124,6 +127,7 @@ def collect_sites(P, fi, context=None):
             if elems is None:
                 elems = []
             note(node, 'starmap', q, _bind_positional(f, pp, pk, elems), ps, st)
+            sites[(id(node), 'starmap')].meth = term[1]
     ev = Evaluator(P, callee_hook=hook, observer=obs, fill_defaults=False)
     exits = ev.run(fi, context=context or {})
     return sites, len(exits), ev
@@ -177,6 +181,8 @@ def rule_carrier_flow(ctx, rid):
             g = P.funcs[s.callee]
             if g is fi:
                 continue
+            if g.parent is fi:
+                continue        # nested function: captures the carriers by closure; its own sites are recorded inline
             ctx.call_sites += 1
             for carrier, stage in STAGES.items():
                 if carrier not in fi.all_formals():
